@@ -60,7 +60,7 @@ REQUIRED_HITS = [
     'K1.idx.2^32-1', 'K1.idx.normal-random', 'K1.idx.hardened-random', 'K1.depth.6', 'K1.class.priv_leading_zero',
     'K1.net.main', 'K1.net.test', 'K1.seedlen.16', 'K1.seedlen.64',
     'K2.pub_eq_checked', 'K2.hardened_refused_checked', 'K2.pubchain_checked',
-    'K3.roundtrip_checked', 'K3.depth0_string_checked', 'K3.corrupt_rejected_checked',
+    'K3.roundtrip_checked', 'K3.depth0_string_checked', 'K3.corrupt_rejected_checked', 'K3.decoded_xprv_child_checked',
     'K4.roundtrip_checked', 'K4.class.leading-zeros', 'K4.class.all-zero', 'K4.class.empty', 'K4.corrupt_reject_checked',
     'K4.mut.prepend-1', 'K4.mut.substitute', 'K4.mut.delete',
     'K5.addr_checked', 'K5.invalid_checked', 'K5.foreign_prefix_checked',
@@ -446,7 +446,7 @@ def run_path(rec, seed, path, net, tag='path', vector=None):
         rec.violation(f'C06/K1/raises/{type(e).__name__}@from_seed', f'{type(e).__name__}: {e} for {ctx}', {'ctx': ctx})
         return
     rec.hit('K1.net.' + net)
-    rec.hit('K1.seedlen.%d' % len(seed))
+    rec.hit('K1.seedlen.%s' % (len(seed) if len(seed) in SEED_LENS else 'other'))
     rec.case(b'node' + seed + b'/m', sample={'seed': seed.hex(), 'path': 'm', 'net': net, 'xpub': ref.xpub(vprv, vpub)})
     if not compare_node(rec, lb, key, ref, net, 'master', ctx):
         return
@@ -488,11 +488,35 @@ def run_path(rec, seed, path, net, tag='path', vector=None):
         check_k3(rec, lb, L, child, True, d + 1, r, ctx, ncorrupt=2)
         check_k3(rec, lb, L, child.public_key, False, d + 1, r, ctx, ncorrupt=2)
         key, ref = child, ref_child
-    # public-only chain from the decoded xpub of the last node (what a watch-only wallet does)
+    # children of the DECODED xprv / xpub of the last node (what a wallet restored from its stored strings does)
     try:
+        wprv = lb.bip32.from_extended_key_string(L, key.extended_key_string())
         wpub = lb.bip32.from_extended_key_string(L, key.public_key.extended_key_string())
     except Exception:  # noqa  (already judged by K3)
         return
+    for i in (r.choice([0, 1, H - 1, r.randrange(H)]), r.choice([H, H + 1, 2 ** 32 - 1, H + r.randrange(H)])):
+        try:
+            rchild = ref.ckd_priv(i)
+        except R.InvalidChild:
+            continue
+        ctx2 = f'{ctx} -> decoded xprv -> child {i}'
+        try:
+            c = wprv.child(i)
+            got = {'privkey': bytes(c.private_key_bytes), 'chain_code': bytes(c.chain_code), 'index': c.n, 'depth': c.depth,
+                   'xprv': c.extended_key_string(), 'xpub': c.public_key.extended_key_string(), 'address': c.address}
+        except Exception as e:  # noqa
+            rec.violation(f'C06/K3/raises/{type(e).__name__}@child-of-decoded-xprv/{hcls(i)}',
+                          f'{type(e).__name__}: {e} at {ctx2}', {'ctx': ctx2})
+            return
+        rec.hit('K3.decoded_xprv_child_checked')
+        want = {'privkey': rchild.priv_bytes, 'chain_code': rchild.c, 'index': i, 'depth': rchild.depth,
+                'xprv': rchild.xprv(vprv, vpub), 'xpub': rchild.xpub(vprv, vpub), 'address': ref_address(net, rchild.pub_bytes)}
+        for f in ('privkey', 'chain_code', 'index', 'depth', 'xprv', 'xpub', 'address'):
+            if got[f] != want[f]:
+                rec.violation(f'C06/K3/child-of-decoded-xprv-differs-from-reference/{f}/{hcls(i)}',
+                              f'{f}: lbry {fmt(got[f])!r} != reference {fmt(want[f])!r} at {ctx2}',
+                              {'ctx': ctx2, 'field': f, 'lbry': fmt(got[f]), 'reference': fmt(want[f])})
+                return
     rnode = ref.neuter()
     for step in range(2):
         i = r.choice([0, 1, H - 1, r.randrange(H)])
